@@ -17,6 +17,18 @@ def run(ctx):
         bfs = [("txt3", txt, 3), ("all2", allr, 2)]
         walks = [dict(label="walk", tags="", walks=40, plies=80, shards=28)]
     board_pipeline(ctx, bfs, walks)
+    # writer / parser / builder against the moved board, in volume (equalities between observations of the
+    # implementation; the specification's text is the reference in the steps above)
+    from vlib import NCPU
+    shards = max(1, NCPU - 2)
+    sw = ctx.pmap(lambda i: ctx.harness(["sweep-twin", "--seed", ctx.seed + 29, "--shard", i, "--walks", 150 if ctx.tier == "quick" else 3000, "--plies", 60]), list(range(shards)))
+    npos = 0
+    for r in sw:
+        ctx.absorb(r)
+        if r["summary"]:
+            npos += r["summary"]["counts"].get("positions", 0)
+    ctx.cov["evaluations"] += npos
+    ctx.cov["steps"].append({"step": "text / builder round-trip sweep", "positions": npos})
     # clock sweep: every value 0..9999 in both clock fields (thorough), a seeded quarter in quick
     import os
     from vlib import ToolError
